@@ -43,6 +43,14 @@ theorem xmembers_rej (lc : Libc) (hl : LibcSpec lc) (ms : List (Gap × Quote × 
         obtain ⟨a1, a2, a3, a4, a5, a6, a7⟩ := e2
         exact ⟨44 :: (intercalateB 44 (xmembersText ((a1, a2, a3, a4, a5, a6, a7) :: r2)) ++ (trailText tr ++ 125 :: rs)),
           (by simp [intercalateB, xmembersText]), (fun h => by cases h), (fun m2 r2' h => by cases h; rfl)⟩
+    have hXs : ∃ s X', (s = 44 ∨ s = 93 ∨ s = 125) ∧ X = s :: X' := by
+      cases r with
+      | nil =>
+        rw [hX.2.1 rfl]
+        cases tr with
+        | none => exact ⟨125, rs, by simp, by simp [trailText]⟩
+        | some g' => exact ⟨44, g'.text ++ 125 :: rs, by simp, by simp [trailText]⟩
+      | cons m2 r2 => exact ⟨44, _, by simp, hX.2.2 m2 r2 rfl⟩
     rw [hX.1]
     cases h1 : g1.plain with
     | false => exact gap_err lc t l hv hst sv (.obj kvs) nm rest hs hgp g1 h1 c off _
@@ -79,9 +87,11 @@ theorem xmembers_rej (lc : Libc) (hl : LibcSpec lc) (ms : List (Gap × Quote × 
           have hwfc : WF tc := wf_restack hwf hs rfl fn.md (topOk_objectValue _ _) (posOk_of_ne (by simp) (by simp) (by simp))
           cases htri : (g3.plain && d.plain && g4.plain) with
           | false =>
+            obtain ⟨s, X', hsep, hXe⟩ := hXs
+            rw [hXe]
             exact xchild_rej lc hl d ihd g3 g4 tc l hwfc (fc.noVal hv) fc.hs hl0 hstc .objectValue .objectValueAdd
               (Or.inr (Or.inr ⟨rfl, rfl⟩)) (.obj kvs) (some (decodeItems k)) rest rfl (.finishInObject _ _ _ _)
-              hdok hfit.1 hknf.1.2 (by rw [fc.md]; omega) htri X 58 _
+              hdok hg4 hfit.1 hknf.1.2 (by rw [fc.md]; omega) htri s hsep X' 58 _
           | true =>
             obtain ⟨e3, ed, e4, hderok⟩ := plain_triple_text g3 g4 d hdok htri
             have hrestnp : (xmembersPlain r && tr.isNone) = false := by
